@@ -188,6 +188,7 @@ def run_path(I, fn, decisions, time_limit):
     res['ndec'] = I.dpos
     res['results'] = I.results
     res['outs'] = {k: _strval(v) for k, v in I.outs.items()}
+    res['errors'] = [str(e)[:300] for e in (I.ext.get('errors') or [])[-3:]]
     res['steps'] = I.steps; res['nq'] = I.nq; res['tq'] = round(I.tq, 3); res['wall'] = round(time.time() - t0, 3)
     res['called'] = sorted(I.called); res['stubs'] = sorted(I.stub_used); res['notes'] = I.notes; res['choices'] = dict(I.choices)
     res['gens'] = len(R.ST.gens); res['denoms'] = len(R.ST.denoms); res['trans'] = sorted(set(k for (k, a, v) in R.ST.trans.values()))
